@@ -166,6 +166,9 @@ class Report:
                 seen.add(ent["key"])
                 print("KNOWN-FINDING: property=%s %s" % (self.pid, ent["what"]))
         paths = []
+        import glob
+        for old in glob.glob(os.path.join(VERIF, "replays", "%s_%s_*.json" % (self.pid, self.tier))):
+            os.remove(old)
         for i, (desc, replay) in enumerate(real[:20]):
             path = os.path.join(VERIF, "replays", "%s_%s_%d.json" % (self.pid, self.tier, i))
             replay = dict(replay)
